@@ -49,10 +49,10 @@ GuidedPlans == {BasePlan} \cup {BasePlan \o r : r \in Removals}
 WildPlans == {q \in Plans : Len(q) = 1}
 
 SScan == pc = "Scan" /\ DoScan /\ Log([op |-> "Scan"]) /\ UNCHANGED lastReq
-SStage == pc = "Stage" /\ \E req \in Reqs : DoStage(req) /\ Log([op |-> "Stage", req |-> ReqJson(req)]) /\ lastReq' = req
+SStage == pc = "Stage" /\ \E req \in Reqs, fault \in FaultSet : DoStage(req, fault) /\ Log([op |-> "Stage", req |-> ReqJson(req), fault |-> fault]) /\ lastReq' = req
 SRecv == /\ pc = "Recv" /\ UNCHANGED lastReq
          /\ IF recv = <<>> THEN Idle /\ Log([op |-> "Recv", kinds |-> <<>>])
-            ELSE \E kinds \in [DOMAIN recv -> KindSet] : DoRecv(kinds) /\ Log([op |-> "Recv", kinds |-> kinds])
+            ELSE \E kinds \in [DOMAIN recv -> KindSet], fault \in FaultSet : DoRecv(kinds, fault) /\ Log([op |-> "Recv", kinds |-> kinds, fault |-> fault])
 STransG == pc = "TransG" /\ \E chg \in GuidedPlans : DoTrans(chg) /\ Log([op |-> "Trans", chg |-> ChgJson(chg)]) /\ UNCHANGED lastReq
 STransW == pc = "TransW" /\ \E chg \in WildPlans : DoTrans(chg) /\ Log([op |-> "Trans", chg |-> ChgJson(chg)]) /\ UNCHANGED lastReq
 SExt == /\ pc = "Ext" /\ UNCHANGED lastReq
